@@ -523,7 +523,8 @@ func (w *c07World) execute(cs *c07Case, scales []string) (*c07Line, error) {
 // ---------------------------------------------------------------- seeded random driver
 // Validator sets of 1..8 members with powers of every magnitude up to MaxTotalVotingPower,
 // the signed power tuned to sit exactly at / just above / just below a threshold, commits
-// aligned with the set or made for another ordering (trusting variant), slots of every kind.
+// aligned with the set, made for another ordering, or foreign (own length, repeated signers at
+// any index of the set -- the trusting variant's domain), slots of every kind.
 
 func c07RandPower(rng *rand.Rand) int64 {
 	switch rng.Intn(6) {
@@ -698,10 +699,40 @@ func c07RandomCase(rng *rand.Rand) *c07Case {
 	}
 	id := func(i int) string { return "v" + strconv.Itoa(i%n+1) }
 	// 5. the commit: aligned with the set, or made for another ordering / membership
-	style := rng.Intn(10)
+	style := rng.Intn(13)
 	var slots []c07Slot
 	var outKinds []string
 	switch {
+	case style >= 10:
+		// foreign commit (the trusting variant's case): its own length m, unrelated to the set's size -- shorter
+		// or longer -- and one member j of the set, preferably one whose index is >= m, signing several slots
+		m := 1 + rng.Intn(n+2)
+		j := rng.Intn(n)
+		if m < n && rng.Intn(3) != 0 {
+			j = m + rng.Intn(n-m)
+		}
+		literal := rng.Intn(2) == 0 // literal copies of one signature, or several signatures (timestamps) of j
+		for k := 0; k < m; k++ {
+			ts := int64(10 + k)
+			switch x := rng.Intn(10); {
+			case x < 6:
+				if literal {
+					ts = int64(10 + j)
+				}
+				slots = append(slots, c07RandSlot(rng, "ok", id(j), id(j), chain, h, r, bid, ts))
+				outKinds = append(outKinds, "ok")
+			case x < 8:
+				o := rng.Intn(n)
+				slots = append(slots, c07RandSlot(rng, "ok", id(o), id(o), chain, h, r, bid, ts))
+				outKinds = append(outKinds, "ok")
+			case x < 9:
+				slots = append(slots, c07RandSlot(rng, "unknown", id(j), id(j), chain, h, r, bid, ts))
+				outKinds = append(outKinds, "unknown")
+			default:
+				slots = append(slots, c07RandSlot(rng, "absent", id(j), id(j), chain, h, r, bid, ts))
+				outKinds = append(outKinds, "absent")
+			}
+		}
 	case style < 6: // aligned
 		for i := 0; i < n; i++ {
 			slots = append(slots, c07RandSlot(rng, skinds[i], id(i), id(i+1), chain, h, r, bid, int64(10+i)))
